@@ -220,6 +220,21 @@ def run(chk):
             chk.ok("C06.closeonerror", st[0].ast, "a response whose start() fails is closed")
         else:
             chk.violation("C06.closeonerror", st[0].ast, "await resp.start(conn)", "except BaseException: resp.close()", "a response that fails/cancels while reading headers is not closed")
+    # the same for the caller of that helper: once _request() holds a started response, every exit that does not hand it to the caller
+    # closes (or releases) it - the caller cannot close what it never received
+    rqf = repo.func(CLIENT, "ClientSession._request")
+    g2 = cfg_of(rqf.node)
+    got = [n for n in g2.nodes if n.in_finally_copy is None and n.kind == "stmt" and isinstance(n.ast, ast.Assign) and norm.raw(n.ast.targets[0]) == "resp" and isinstance(n.ast.value, ast.Await)]
+    if not got:
+        chk.analysis_error("C06.closeonerror: `resp = await handler(req)` not found in ClientSession._request")
+    else:
+        # `if resp is not None: resp.close()`: on a path that starts after the assignment the test is true
+        guards = {id(i.test) for i in ast.walk(rqf.node) if isinstance(i, ast.If) and norm.raw(i.test) == "resp is not None" and any(M.contains(b_, "resp.close()") for b_ in i.body)}
+        K.must_pass(chk, "C06.closeonerror", rqf, None,
+                    lambda n: K.node_has(n, "resp.close()") or K.node_has(n, "resp.release()") or (n.kind == "test" and id(n.ast) in guards)
+                    or (n.kind == "stmt" and isinstance(n.ast, ast.Return) and n.ast.value is not None and norm.raw(n.ast.value) == "resp"),
+                    "once _request() holds a started response every exit (cancellation at any await included) closes or releases it unless it is returned", model=CANCEL,
+                    start_edges=[(a, "n") for a in got], construct="resp = await handler(req)", missing="resp.close() in `except BaseException`")
     rclose = repo.func(REQ, "ClientResponse.close")
     cc = K.exprs(rclose, "self._connection.close()")
     if cc and {str(l) for l in PC.units(PC.pc(cc[0][0]))} <= {"!(self._connection is None)", "!(self._loop.is_closed())"}:
